@@ -104,6 +104,9 @@ func accOK(acc string, k V, mai int) bool {
 		return hashKeyOK(k, mai)
 	case "lua.setconst", "lua.getconst":
 		return constOK(k)
+	case "lua.tremove", "tb.Remove":
+		_, ok := intKey(k)
+		return ok
 	}
 	return !k.isNil() && !k.isNaN()
 }
@@ -336,7 +339,13 @@ func (g *gen) genWalk(t int) *Walk {
 		if g.r.Intn(4) == 0 {
 			at = 0
 		}
-		w.Mods = append(w.Mods, Mod{At: at, K: k, V: v, A: pickAcc(g.r, storeAccs, k, g.mai)})
+		acc := pickAcc(g.r, storeAccs, k, g.mai)
+		if _, isInt := intKey(k); isInt && v.isNil() && g.r.Intn(3) == 0 {
+			// clearing the last list element by table.remove / LTable.Remove is
+			// clearing an existing field too (the run decides whether k is the border)
+			acc = []string{"lua.tremove", "tb.Remove"}[g.r.Intn(2)]
+		}
+		w.Mods = append(w.Mods, Mod{At: at, K: k, V: v, A: acc})
 		g.pm[t].set(k, v)
 	}
 	return w
